@@ -852,6 +852,11 @@ def unit_dstu(ctx):
             plan.append((dk, dv, hn, hv, None, None))
     for tk in ("reject-zero", "reject-zero-after-trim", "high-junk", "e=1", "e=max", "brng", "s=0-forced"):
         plan.append(("d=random", None, "random", None, tk, None))
+    # boundary keys make the public key equal to +-P, so that the verifier's interleaved multi-scalar loop meets the
+    # exceptional branches of the mixed addition (P + P, P + (-P)) for some nonce shapes: many nonces per boundary key
+    for _ in range(ctx.params.get("nboundary", 24 if ctx.tier == "quick" else 200)):
+        plan.append(("d=order-1", n - 1, "random", None, "random", None))
+        plan.append(("d=1", 1, "random", None, "random", None))
     for ld in lds:
         plan.append(("d=random", None, "random", None, None, ld))
     part, parts = ctx.params.get("part", 0), ctx.params.get("parts", 1)
